@@ -75,7 +75,13 @@ pub enum Op {
     },
     /// drop the `slot % held`-th held object (no-op when nothing is held)
     Return { slot: u8 },
-    Take { slot: u8 },
+    /// `detach_panics`: the manager's `detach()` panics for the object being taken (the caller
+    /// contains the panic)
+    Take {
+        slot: u8,
+        #[serde(default)]
+        detach_panics: bool,
+    },
     /// deref + metrics of a held object
     Use { slot: u8 },
     Resize { n: usize },
